@@ -504,8 +504,9 @@ def assembly(ctx: Ctx, rule: str):
         ctx.check(last == "return {return_name}", rule, mt.key("return"), "return <result array>", f"python method template ends with `{last}` (by default), not with `return <result array>`", mt.where())
     util.same_as_reference(ctx, rule, "codegen/base.py", "CodeGenerator._doprint", REF_DOPRINT, "", "lhs = rhs printed by the backend printer", "CodeGenerator._doprint does not return the backend printer's text of Assignment(lhs, rhs) (with the variable prefix when asked)")
     gc = sm.func("cli/gotran2py.py", "get_code")
-    gv = util.value_of(ctx, gc)
-    parts = [c[2] for c in _av.find_all(gv, "mcall") if c[1][0] == "call" and c[1][1].endswith("CodeGenerator") or (c[1][0] == "if")]
+    from .c18 import get_code_value
+
+    gv = get_code_value(ctx, "cli/gotran2py.py", {"backend": ("enum", "Backend", "numpy", "numpy")} if "backend" in gc.params else None)
     joins = [x for x in _av.find_all(gv, "join") if "imports" in _av.show(x)[:400]]
     if not joins:
         ctx.undecided(rule, gc.key("module-parts"), "how gotran2py.get_code assembles the module is not understood", gc.where())
